@@ -28,6 +28,7 @@ def judge (stream : String) (kv : KV) : Option Verdict :=
   | "rx12" => some (RegexD.judgeRx 12 kv)
   | "rset" => some (RegexD.judgeRset kv)
   | "ex" => some (ExD.judge 0 kv)
+  | "ex04" => some (ExJ.judge 4 kv)
   | "ex06" => some (ExJ.judge 6 kv)
   | "ex14" => some (ExJ.judge 14 kv)
   | "ex02" => some (ExJ.judge 2 kv)
